@@ -176,7 +176,7 @@ def cache_sweep(tier, seed=0):
 
 
 # ------------------------------------------------------------------ C53
-TOKENS = [None, "tok", 1, "1", ("a", 1), "('a', 1)", b"x", "b'x'"]
+TOKENS = [None, "tok", 1, "1", ("a", 1), "('a', 1)", b"x", "b'x'", "", 0]  # "" and 0: explicit but falsy
 
 
 def lock_histories(length):
@@ -221,9 +221,68 @@ def run_lock_history(h):
     return None
 
 
+def lock_contention(tok):
+    """Another thread holds the original inside `with`; every way of acquiring a copy must fail until it is released,
+    a separately created lock must stay available."""
+    import copy
+    import threading
+
+    from dask.utils import SerializableLock
+
+    a = SerializableLock(tok)
+    copies = {"pickle round trip": pickle.loads(pickle.dumps(a)), "copy.copy": copy.copy(a), "copy.deepcopy": copy.deepcopy(a),
+              "second round trip": pickle.loads(pickle.dumps(pickle.loads(pickle.dumps(a))))}
+    other = SerializableLock()
+    held, done = threading.Event(), threading.Event()
+
+    def holder():
+        with a:
+            held.set()
+            done.wait(20)
+
+    th = threading.Thread(target=holder, daemon=True)
+    th.start()
+    held.wait(5)
+    msg = None
+    try:
+        for how, c in copies.items():
+            for label, call in (("acquire(False)", lambda: c.acquire(False)), ("acquire(blocking=False)", lambda: c.acquire(blocking=False)),
+                                ("acquire(timeout=0.02)", lambda: c.acquire(timeout=0.02)), ("acquire(True, 0.02)", lambda: c.acquire(True, 0.02))):
+                got = call()
+                if got:
+                    c.release()
+                    return f"token {tok!r}: while another thread holds the original, {label} on the {how} copy reports success"
+            if not c.locked():
+                return f"token {tok!r}: the {how} copy reports locked() == False while the original is held"
+        if not other.acquire(timeout=1):
+            return f"token {tok!r}: a separately created lock cannot be acquired while this one is held"
+        other.release()
+    finally:
+        done.set()
+        th.join(5)
+    for how, c in copies.items():
+        if not c.acquire(timeout=2):
+            return f"token {tok!r}: the {how} copy cannot be acquired after the original was released"
+        if a.acquire(False):
+            a.release()
+            c.release()
+            return f"token {tok!r}: holding the {how} copy does not block the original"
+        c.release()
+    return msg
+
+
 def lock_sweep(tier, seed=0):
     t0 = time.time()
     cases, fails = 0, []
+    for tok in TOKENS:
+        cases += 1
+        try:
+            msg = lock_contention(tok)
+        except Exception as e:  # noqa
+            msg = f"{type(e).__name__}: {e}"
+        if msg:
+            fails.append(rtc.Failure("SerializableLock", {"token": tok, "scenario": "thread holds the original; acquire copies"}, "ensures", "C53-holding-one-blocks-the-others", msg))
+            break
     length = 3 if tier == "quick" else 4
     for h in lock_histories(length):
         cases += 1
@@ -237,6 +296,6 @@ def lock_sweep(tier, seed=0):
                 break
     gc.collect()
     return {"function": "dask/utils.py:SerializableLock (real code)", "bounded": True,
-            "bound": {"history length": length, "ops": "new(token in None/'tok'/1/'1'/('a',1)/\"('a', 1)\"/b'x'/\"b'x'\"), pickle round trip of instance i, delete instance i + gc"},
+            "bound": {"history length": length, "contention": "per token: a thread holds the original, 4 kinds of copies x 4 ways of acquiring", "ops": "new(token in None/'tok'/1/'1'/('a',1)/\"('a', 1)\"/b'x'/\"b'x'\"/''/0), pickle round trip of instance i, delete instance i + gc"},
             "cases": cases, "distinct_nontrivial": cases, "failures_found": len(fails), "wall_s": round(time.time() - t0, 2),
             "samples": [{"native_case": {"history": [["new", "tok"], ["pickle", 0], ["del", 0], ["pickle", 1]]}}], "failures": fails[:4]}
